@@ -141,6 +141,23 @@ class PolicyChooser(Chooser):
                 if m[1] == s:
                     return i
             return 0
+        if p == "yield":
+            # pre-empt an actor right after it mutated a path (truncating open, rename, unlink, new sqlite file) and keep
+            # it off the CPU for a few steps: the window in which peers can observe its half-done work
+            hold = getattr(self, "_hold", None)
+            if hold and hold[1] > 0:
+                self._hold = (hold[0], hold[1] - 1)
+                cand = [i for i, m in enumerate(moves) if m[1] != hold[0]]
+                if cand:
+                    return cand[self.rng.randrange(len(cand))]
+            last = hub.trace[-1] if hub.trace else None
+            if last and last[0] == "ev" and re.search(r":(open:[wa]|rename|remove|sqlite-connect):", last[3]) \
+                    and self.rng.random() < 0.7:
+                self._hold = (last[2], self.rng.choice([1, 2, 3, 5, 8, 13, 21]))
+                cand = [i for i, m in enumerate(moves) if m[1] != last[2]]
+                if cand:
+                    return cand[self.rng.randrange(len(cand))]
+            return self.rng.randrange(len(moves))
         if p == "starve":
             # one victim actor is starved for a window of steps (generalises a single PCT change point)
             if not hasattr(self, "_sv"):
